@@ -133,7 +133,7 @@ pub struct ConnCfg {
     pub tls: Option<Arc<rustls::ServerConfig>>,
     pub iterate_params: bool,
     pub param_probe: Option<crate::shim::ParamProbe>,
-    pub skip_iter: Vec<bool>,
+    pub skip_iter: Vec<u8>,
 }
 
 impl ConnCfg {
